@@ -1,6 +1,7 @@
 //! C10 driver: replay TLC-generated scope trees into the real name resolver.
 //! usage: vh c10 <rows.ndjson>
-//!   each line: {id, lang: "own"|"other", body: [stmts (interchange form)], ren: [[stmts], ..]?}
+//!   each line: {id, lang: "own"|"other", genum: name?, body: [stmts (interchange form)], ren: [[stmts], ..]?, ren_genum: [name, ..]?}
+//!   genum: the compilation also has a global enum const of that spelling (a second mapfile with an `!enum` section)
 //! per line:
 //!   resolve : parse -> assign_languages -> resolve_names on the rendered block; the real AST exported
 //!             with every identifier replaced by the DefId the real resolver recorded for it
@@ -59,6 +60,9 @@ const MAPFILE_OTHER_LANGUAGE: &str = "!eclmap
 77 S
 ";
 
+/// A global enum const (like an ANM sprite name or a mapfile `!enum` entry): value 7, any spelling.
+fn enum_mapfile(name: &str) -> String { format!("!anmmap\n!enum(name=\"GEnum\")\n7 {}\n", name) }
+
 fn diag_headings(diag: &str) -> Vec<String> {
     diag.lines()
         .filter(|l| l.starts_with("error") || l.starts_with("warning") || l.starts_with("bug"))
@@ -66,10 +70,11 @@ fn diag_headings(diag: &str) -> Vec<String> {
         .collect()
 }
 
-fn resolve(text: &str, lang: truth::LanguageKey) -> Value {
+fn resolve(text: &str, lang: truth::LanguageKey, genum: Option<&str>) -> Value {
     let r = with_truth(|truth| {
         truth.apply_mapfile_str(MAPFILE, truth::Game::Th10)?;
         truth.apply_mapfile_str(MAPFILE_OTHER_LANGUAGE, truth::Game::Th08)?;
+        if let Some(name) = genum { truth.apply_mapfile_str(&enum_mapfile(name), truth::Game::Th10)?; }
         let mut block = truth.parse::<ast::Block>("<input>", text.as_ref())?.value;
         let ctx = truth.ctx();
         truth::passes::resolution::assign_languages(&mut block, lang, ctx)?;
@@ -89,10 +94,11 @@ fn resolve(text: &str, lang: truth::LanguageKey) -> Value {
     }
 }
 
-fn compile(text: &str) -> Value {
+fn compile(text: &str, genum: Option<&str>) -> Value {
     let r = with_truth(|truth| {
         truth.apply_mapfile_str(MAPFILE, truth::Game::Th10)?;
         truth.apply_mapfile_str(MAPFILE_OTHER_LANGUAGE, truth::Game::Th08)?;
+        if let Some(name) = genum { truth.apply_mapfile_str(&enum_mapfile(name), truth::Game::Th10)?; }
         let mut block = front_half(truth, text, truth::LanguageKey::Anm, true)?;
         let ctx = truth.ctx();
         truth::passes::evaluate_const_vars::run(ctx)?;
@@ -120,12 +126,15 @@ fn main() {
     for r in &rows {
         let text = vh::render::block_text(&r["body"]);
         let lang = if r["lang"] == "other" { truth::LanguageKey::Ecl } else { truth::LanguageKey::Anm };
-        let mut row = json!({"id": r["id"], "text": text, "resolve": resolve(&text, lang)});
+        let genum = r.get("genum").and_then(|x| x.as_str());
+        let mut row = json!({"id": r["id"], "text": text, "resolve": resolve(&text, lang, genum)});
         if let Some(rens) = r.get("ren").and_then(|x| x.as_array()) {
-            let mut outs = vec![json!({"text": text, "out": compile(&text)})];
-            for b in rens {
+            let mut outs = vec![json!({"text": text, "out": compile(&text, genum)})];
+            for (j, b) in rens.iter().enumerate() {
                 let t = vh::render::block_text(b);
-                let o = compile(&t);
+                // the enum const is renamed together with its uses
+                let renamed = r.get("ren_genum").and_then(|x| x.get(j)).and_then(|x| x.as_str());
+                let o = compile(&t, renamed);
                 outs.push(json!({"text": t, "out": o}));
             }
             row["ren"] = Value::Array(outs);
